@@ -38,6 +38,10 @@ TNth ==
     /\ Ev("nth") /\ UNCHANGED complete
     /\ ReadNth(Rec[l].i) /\ out'.res = Rec[l].res
 
+TNthFail ==
+    /\ Ev("nthfail") /\ UNCHANGED complete
+    /\ ReadNthFails(Rec[l].i) /\ out'.res = Rec[l].res
+
 TSeek ==
     /\ Ev("seek") /\ UNCHANGED complete
     /\ Seek(Rec[l].k) /\ out'.res = Rec[l].res
@@ -48,7 +52,7 @@ TCount ==
 
 Init == /\ l = 2 /\ N = 0 /\ hasIdx = FALSE /\ A = {0} /\ pend = -1 /\ complete = FALSE
         /\ out = [call |-> "open", items |-> << >>, ended |-> FALSE, res |-> 0]
-Next == TReset \/ TIter \/ TNth \/ TSeek \/ TCount
+Next == TReset \/ TIter \/ TNth \/ TNthFail \/ TSeek \/ TCount
 Spec == Init /\ [][Next]_vars
 
 Accepted ==
